@@ -420,6 +420,20 @@ Definition expectation_ok (evs dels : list event) (x : sx) : bool :=
         | Some body, EData g t' _ _ :: _ => bytes_eqb g body && term_is tm t'
         | _, _ => false
         end
+      else if sx_is "max-events" t then
+        (* at most n backend events of the given kind *)
+        let is_k e :=
+          match e with
+          | EAuth _ _ => sx_is "auth" a
+          | EAuthNext _ _ _ _ => sx_is "authnext" a
+          | EMail _ _ _ => sx_is "mail" a
+          | ERcpt _ _ _ => sx_is "rcpt" a
+          | _ => false
+          end in
+        match sx_N tm with
+        | Some n => (N.of_nat (List.length (filter is_k evs)) <=? n)%N
+        | None => false
+        end
       else true
   | SL [t] =>
       if sx_is "forbid-eof" t then
